@@ -57,7 +57,8 @@ func (c Config) compileNode(n parser.ASTNode) (Node, parser.Error) {
 		if td, ok := c.FindTagDefinition(n.Name); ok {
 			f, err := td(n.Args)
 			if err != nil {
-				return nil, parser.Errorf(n, "%s", err)
+				// as for a block: the tag's own error is the cause
+				return nil, parser.WrapError(err, n)
 			}
 			return &TagNode{n.Token, f}, nil
 		}
